@@ -54,6 +54,16 @@ func main() {
 			os.Exit(2)
 		}
 		fmt.Print(out)
+	case "fingerprint":
+		fs := flag.NewFlagSet("fingerprint", flag.ExitOnError)
+		repo := fs.String("repo", "/repo", "")
+		fs.Parse(os.Args[2:])
+		out, err := h.Fingerprint(*repo)
+		if err != nil {
+			fmt.Fprintln(os.Stderr, err)
+			os.Exit(2)
+		}
+		fmt.Println(out)
 	case "shrink":
 		// harness shrink <suite> <clause> < one case line : prints a smaller case on which the monitor still fails
 		sc := bufio.NewScanner(os.Stdin)
